@@ -620,9 +620,9 @@ class TempoBackend(BaseTempoBackend):
         """
         ToDo
         """
+        prop_1, prop_2 = self._propagators(self._step)
+        self._state = self.compute_system_step(self._step + 1, prop_1, prop_2)
         self._step += 1
-        prop_1, prop_2 = self._propagators(self._step - 1)
-        self._state = self.compute_system_step(self._step, prop_1, prop_2)
         return self._step, copy(self._state)
 
 
